@@ -176,6 +176,21 @@ def canonical_modulo_gradient_ids(text):
     return etree.tostring(root, method="c14n", exclusive=True).decode()
 
 
+def defs_sorted(text):
+    """the document with the children of every <defs> sorted by id and nothing else touched (attribute order, white space and
+    digits stay as they are: lxml serialises what it parsed)"""
+    root = etree.fromstring(text.encode() if isinstance(text, str) else text)
+    for d in root.iter():
+        if isinstance(d.tag, str) and _local(d) == "defs":
+            kids = sorted(d, key=lambda g: g.get("id") or "")
+            for k in list(d):
+                d.remove(k)
+            for k in kids:
+                k.tail = None
+                d.append(k)
+    return etree.tostring(root).decode()
+
+
 def equivalent_modulo_gradients(a, b, tol=3e-6):
     """O4: equal up to gradient id numbering, order inside defs and the last rounded digit of gradient parameters"""
     ca, cb = canonical_modulo_gradient_ids(a), canonical_modulo_gradient_ids(b)
